@@ -25,7 +25,7 @@ CLAIMS = {
           "table evaluated through the call site's argument order (pattern-matrix evaluation, not execution), the optional cut and compile default, "
           "the recursion continuing with the composed scope, conflict identity = {group, artifact, classifier, type} in both the collision id and the "
           "management lookup, first-seen retain predicate, FIFO level-by-level retain shape, managed version/scope/optional operand order, import-scope "
-          "splice + skip, own-before-parent order for dependencies and management, scope and coordinate print/parse tables, resolver order. The collision identity is evaluated at every type string known to the crate's type tables (type, not extension).",
+          "splice + skip, own-before-parent order for dependencies and management, scope and coordinate print/parse tables, resolver order. The collision identity is evaluated at every type string known to the crate's type tables (type, not extension). Also: one mediation pass over the whole forest of roots (get_maven_dependencies evaluated on multi-root forests), every POM fetched through the full repository list, FoundDependency print/parse inverse for URLs containing '@' or the separator.",
   "note": "Not decided: equality with Maven on all POM universes (value-level behaviour of the recursion, async downloads, XML parsing). "
           "Trusted: rustc's HIR/typeck/const-eval; spec/maven.json transcribed from the Maven documentation.",
   "technique": "static analysis: decision-table extraction (pattern-matrix evaluation over const-evaluated patterns) + structural HIR rules",
@@ -37,7 +37,7 @@ CLAIMS = {
           "'(' / ')' handling; truth-table equivalence of the five name predicates with the documented JVMS 4.2 formulae and of their duke-macros "
           "siblings; check_valid -> predicate delegation; every TryFrom reaching the unchecked constructor only under check_valid == Ok on the same "
           "value; classification of all from_inner_unchecked call sites (macro-internal / validated literal / frozen closed conversion / other owner); "
-          "guards of the inner-class split helper and shape of the join helper.",
+          "guards of the inner-class split helper and shape of the join helper. (R18.7) the three parse() functions are evaluated by an interpreter of the typed HIR on every string over {I L a / ; [ ( ) V} up to length 4 plus grammar samples with all single-character edits (8668 probes) and compared with an independent JVMS 4.3 recogniser (acceptance and type structure); the inner-class join helper is evaluated (parent, `$`, inner name appended unconditionally); unchecked-constructor sites are attributed through private helpers and type-parameter roles are spelling-independent.",
   "note": "Not decided: parse(write(x)) == x and write(parse(s)) == s as value-level laws on all structures (declined: needs value reasoning). "
           "The closed-conversion table (20 entries) is reviewed by hand. Trusted: rustc HIR/typeck/const-eval; spec/jvms_names.json.",
   "technique": "static analysis: decision-table extraction, boolean truth-table equivalence of predicate structure, guard dominance, who-may-construct (newtype discipline)",
